@@ -40,6 +40,7 @@ var strVals = []Leaf{{Text: "foo", Kind: "str", Str: "foo"}, {Text: "bar", Kind:
 	// backslash sequences inside quotes are verbatim text; quoted digits are strings, not numbers
 	{Text: `"C:\temp\new"`, Kind: "str", Str: `C:\temp\new`}, {Text: `"a\\b"`, Kind: "str", Str: `a\\b`}, {Text: `"\u00e9"`, Kind: "str", Str: `\u00e9`},
 	{Text: `"a  b"`, Kind: "str", Str: "a  b"}, {Text: "\"a\tb\"", Kind: "str", Str: "a\tb"}, {Text: `" a b "`, Kind: "str", Str: " a b "},
+	{Text: `"l'été"`, Kind: "str", Str: "l'été"}, {Text: `"日本's"`, Kind: "str", Str: "日本's"}, {Text: `""`, Kind: "str", Str: ""},
 	{Text: `"007"`, Kind: "str", Str: "007"}, {Text: `"9"`, Kind: "str", Str: "9"}, {Text: `"1.5"`, Kind: "str", Str: "1.5"}, {Text: `"+3"`, Kind: "str", Str: "+3"}}
 
 var strValsComma = []Leaf{{Text: `"x,y"`, Kind: "str", Str: "x,y"}}
